@@ -90,10 +90,20 @@ def main():
     sys.exit(rc)
 
 
+LAST_AUX = {'out_of_model': None}
+
+
 def oracle_eval(mod, cases, workdir, tag, use_model):
-    """Returns (oracle_fail_idx, model_fail_idx). pyfail cases count as oracle failures."""
-    o_exprs = [c['oracle'] if c.get('oracle') else 'true' for c in cases]
-    o_bad = fw.eval_bools(mod.oracle_imports, o_exprs, workdir, tag + 'o') if cases else set()
+    """Returns (oracle_fail_idx, model_fail_idx). pyfail cases count as oracle failures.
+    Cases may carry `oracle_vec` (a Coq `list bool` [oracle; in_model]) instead of `oracle`."""
+    LAST_AUX['out_of_model'] = None
+    if cases and all(c.get('oracle_vec') for c in cases):
+        bad = fw.eval_bools(mod.oracle_imports, [c['oracle_vec'] for c in cases], workdir, tag + 'o', width=2)
+        o_bad = {j // 2 for j in bad if j % 2 == 0}
+        LAST_AUX['out_of_model'] = len({j // 2 for j in bad if j % 2 == 1})
+    else:
+        o_exprs = [c['oracle'] if c.get('oracle') else 'true' for c in cases]
+        o_bad = fw.eval_bools(mod.oracle_imports, o_exprs, workdir, tag + 'o') if cases else set()
     for i, c in enumerate(cases):
         if c.get('pyfail'):
             o_bad.add(i)
@@ -192,9 +202,7 @@ def run(pid, mod, args, seed, t0, workdir):
                     n_corpus += 1
     cases.extend(mod.generate(rng, tier))
     o_bad, m_bad = oracle_eval(mod, cases, workdir, 'c', model_ok)
-    out_of_model = None
-    if any(c.get('aux') for c in cases):
-        out_of_model = len(fw.eval_bools(mod.oracle_imports, [c.get('aux') or 'true' for c in cases], workdir, 'ca'))
+    out_of_model = LAST_AUX['out_of_model']
 
     # ---- search when a proof / translation / model correspondence broke ---
     searched = 0
